@@ -103,6 +103,7 @@ def deep(n):
 
 exit = 'door'
 open = 5
+frozenset = 'ice'
 
 
 def shadowed(extra=0):
@@ -450,10 +451,32 @@ ARG_VALUES = ['0', '1', '-7', '9', '40', '10 ** 30', '2.5', '-0.0', '0.1 + 0.2',
               "b'bytes'", '(1+2j)', 'range(3)', "'naïve ✓'",
               # instances of subclasses of the builtin containers: they are not what their repr() evaluates to
               "collections.OrderedDict(a=1, b=2)", "collections.Counter('aab')", "collections.defaultdict(int, k=1)",
-              "Pt(1, 2)", "Stack([1, 2])", "[collections.OrderedDict(z=0)]"]
+              "Pt(1, 2)", "Stack([1, 2])", "[collections.OrderedDict(z=0)]",
+              # scalars of a subclass (an IntEnum member, a str/float subclass with its own repr), an int too long to print, a list inside itself
+              'Level.HIGH', '[Level.LOW]', "Tag('x')", 'Ratio(2.5)', '10 ** 5000', 'selfref()']
 import collections as _collections
+import enum as _enum
+
+
+class _Tag(str):
+    def __repr__(self):
+        return '<Tag %s>' % str(self)
+
+
+class _Ratio(float):
+    def __repr__(self):
+        return 'Ratio(%s)' % float(self)
+
+
+def _selfref():
+    box = [1]
+    box.append(box)
+    return box
+
+
 #: names the argument sources above may use (evaluated by the harness, not by student code)
-ARG_NAMESPACE = {'collections': _collections, 'Pt': _collections.namedtuple('Pt', 'x y'), 'Stack': type('Stack', (list,), {})}
+ARG_NAMESPACE = {'collections': _collections, 'Pt': _collections.namedtuple('Pt', 'x y'), 'Stack': type('Stack', (list,), {}),
+                 'Level': _enum.IntEnum('Level', 'LOW HIGH'), 'Tag': _Tag, 'Ratio': _Ratio, 'selfref': _selfref}
 CALLABLES = {  # name -> (min args, max args, accepts kwargs)
     'echo': (1, 1, False), 'pair': (1, 4, True), 'first': (1, 1, False), 'total': (1, 1, False), 'h0': (1, 2, False),
     'fact': (1, 1, False), 'deep': (1, 1, False), 'shadowed': (0, 1, False), 'bump': (0, 1, False), 'describe': (1, 2, False), 'shout': (1, 2, False), 'Acc': (1, 1, False),
